@@ -15,6 +15,8 @@ RULE = ('one case = one statement of a history executed in a real Session, follo
         'statement (allocation order, reversed, shuffled, survivors below/between/above, repeated or undeclared '
         'names failing part-way); the "wild" histories add string expressions, '
         'MID$/LSET, STRING$, numeric copies, FOR loops, forced collections FRE(""), CLEAR ,n with tiny memory; '
+        'generated program pairs where COMMON / ALL string variables and array elements share one descriptor (same '
+        'program literal, copied literal pointer, same DATA item) and are carried over a CHAIN, then edited in place; '
         'non-trivial = every case (each is followed by PEEKs over every variable)')
 EXPLANATION = ('theorems (PcbV.Props.C11 over PcbV.Model.VarMem): wf_reachable / strings_wf_reachable (layout and '
                'string-space invariants after every history of LET/DIM/SWAP/ERASE, failing statements included), '
@@ -33,7 +35,10 @@ EXPLANATION = ('theorems (PcbV.Props.C11 over PcbV.Model.VarMem): wf_reachable /
                'string length/address/characters, VARPTR$ decoding, pairwise disjointness of all (VARPTR,size) '
                'ranges and string bodies, containment in the variable area (PEEK &H358..&H35D), read-back of '
                'every variable through Session.get_variable, and the same numbers again through BASIC statements '
-               '(PRINT VARPTR / PEEK / ASC(MID$(VARPTR$…))) on a sample'
+               '(PRINT VARPTR / PEEK / ASC(MID$(VARPTR$…))) on a sample; after CHAIN (COMMON list or ALL): the '
+               'characters found through VARPTR/PEEK equal the value, the [address, address+len) ranges of all live '
+               'strings are pairwise disjoint unless both lie in the program text, and MID$/LSET/RSET on one variable '
+               'changes no other (oracle only, not modelled)'
                '; source tie: Scalars._record_size and Arrays._record_size are translated mechanically from the '
                'current Python AST (PcbV.Gen.Translated.scalarRecordSize / arrayRecordSize, gen/py2lean.py), proved '
                'equal to recSize / arecSize of the model (translated_scalarRecordSize_eq, '
@@ -876,6 +881,173 @@ def multi_erase_histories():
     return hs
 
 
+# ----------------------------------------------------------------------------------------------
+# never aliased after CHAIN: COMMON / ALL variables whose descriptors were identical before the CHAIN (same program
+# literal, same DATA item, a copied program-literal pointer) must each own their characters afterwards
+
+def gen_chain_case(rng):
+    """a generated pair of programs: P1 fills string variables from shared sources and CHAINs to P2"""
+    letters = 'ABCDEFGHJKLMNPQRSTUVWXYZ'
+    names = []
+    while len(names) < rng.randint(3, 6):
+        nm = rng.choice(letters) + ''.join(rng.choice(letters + '0123456789') for _ in range(rng.randint(0, 4))) + '$'
+        if nm not in names and nm[:2] != 'FN':
+            names.append(nm)
+    arrs = []
+    for nm in names[:rng.randint(1, 2)]:
+        arrs.append((nm[:-1] + 'Q$', rng.randint(1, 5)))
+    scalars = names[len(arrs):]
+    cells = [[n, None] for n in scalars] + [[n, i] for n, d in arrs for i in range(d + 1)]
+    rng.shuffle(cells)
+    lit = lambda: ''.join(rng.choice('abcdefghijklmnopqrstuvwxyz .-') for _ in range(rng.randint(1, 24)))
+    groups, i = [], 0
+    while i < len(cells):
+        k = rng.randint(1, 4)
+        kind = rng.choice(['literal', 'literal', 'copy', 'data', 'own'])
+        groups.append({'kind': kind, 'cells': cells[i:i + k], 'text': lit()})
+        i += k
+    mode = rng.choice(['all', 'common', 'common'])
+    if mode == 'all':
+        common = [n for n in scalars] + [n for n, _ in arrs]
+    else:
+        common = [n for n in scalars if rng.random() < 0.8] + [n for n, _ in arrs if rng.random() < 0.8]
+    return {'arrays': arrs, 'groups': groups, 'mode': mode, 'common': common,
+            'edits': [[rng.choice(['mid', 'lset', 'rset']), rng.randrange(1000), rng.choice(['#', '@!', '?'])]
+                      for _ in range(rng.randint(1, 4))]}
+
+
+def run_chain_case(spec):
+    """returns None or (key, text)"""
+    import os
+    import shutil
+    import tempfile
+    ref = lambda c: c[0] if c[1] is None else '%s(%d)' % (c[0], c[1])
+    arrs = {n: d for n, d in spec['arrays']}
+    lines, num = [], 10
+
+    def add(text):
+        nonlocal num
+        lines.append('%d %s' % (num, text))
+        num += 10
+    if spec['mode'] == 'common' and spec['common']:
+        add('COMMON ' + ','.join(n + '()' if n in arrs else n for n in spec['common']))
+    for n, d in spec['arrays']:
+        add('DIM %s(%d)' % (n, d))
+    data, expected = [], {}
+    for g in spec['groups']:
+        cs = g['cells']
+        for c in cs:
+            expected[ref(c)] = g['text'].encode('ascii')
+        if g['kind'] == 'literal':
+            # ONE literal instance assigned to every cell of the group: the temporary T9$ takes the pointer into the
+            # program text and is copied (pointer copy in a program) to each cell
+            add('T9$="%s"' % g['text'])
+            for c in cs:
+                add('%s=T9$' % ref(c))
+        elif g['kind'] == 'copy':
+            add('%s="%s"' % (ref(cs[0]), g['text']))
+            for a, b in zip(cs, cs[1:]):
+                add('%s=%s' % (ref(b), ref(a)))
+        elif g['kind'] == 'data':
+            data.append(g['text'])
+            for c in cs:
+                add('RESTORE 8000: FOR I%%=1 TO %d: READ %s: NEXT' % (len(data), ref(c)))
+        else:
+            for c in cs:
+                add('%s="%s"+""' % (ref(c), g['text']))
+    add('CHAIN "P2"' + (',,ALL' if spec['mode'] == 'all' else ''))
+    lines.append('8000 DATA ' + ','.join('"%s"' % d for d in data) if data else '8000 REM')
+    workdir = tempfile.mkdtemp(prefix='pcbv_c11_')
+    try:
+        with open(os.path.join(workdir, 'P1.BAS'), 'wb') as f:
+            f.write('\r\n'.join(lines).encode('ascii') + b'\r\n\x1a')
+        with open(os.path.join(workdir, 'P2.BAS'), 'wb') as f:
+            f.write(b'10 REM chained\r\n20 END\r\n\x1a')
+        s = basic.new_session(devices={'C': workdir}, current_device='C')
+        try:
+            try:
+                out = s.execute(b'RUN "P1"')
+            except Exception as e:
+                return 'chain-exception', 'RUN "P1" raised %s: %s (program %r)' % (type(e).__name__, e, lines)
+            if out.strip():
+                return 'chain-output', 'RUN "P1" printed %r (program %r)' % (out, lines)
+            mem, mach = s._impl.memory, s._impl.all_memory
+            ds = mem.data_segment * 0x10
+            peek = lambda a: mach._get_memory(ds + a)
+            preserved = set(spec['common'])
+
+            def inspect(expect, when):
+                vs = peek(0x358) + 256 * peek(0x359)
+                bodies = []
+                for cell, want in sorted(expect.items()):
+                    nm = cell.split('(')[0]
+                    idx = [int(cell.split('(')[1][:-1])] if '(' in cell else []
+                    if nm not in preserved:
+                        want = b''
+                    try:
+                        p = mem.varptr(nm.encode('ascii'), idx)
+                    except Exception:
+                        if want == b'':
+                            continue
+                        return 'chain-lost', '%s: %s does not exist, should read %r' % (when, cell, want)
+                    ln, ad = peek(p), peek(p + 1) + 256 * peek(p + 2)
+                    chars = bytes(peek(ad + i) for i in range(ln))
+                    if chars != want:
+                        return 'chain-value', '%s: %s reads %r through PEEK(VARPTR), should be %r' % (when, cell, chars, want)
+                    if ln:
+                        bodies.append((ad, ln, cell, ad < vs))
+                bodies.sort()
+                for (a, n, la, ta), (b, m, lb, tb) in zip(bodies, bodies[1:]):
+                    if a + n > b and not (ta and tb):
+                        return ('chain-aliased', '%s: %s (characters at %d..%d) and %s (at %d..%d) share storage in string '
+                                'space' % (when, la, a, a + n, lb, b, b + m))
+                return None
+            r = inspect(expected, 'after CHAIN')
+            if r:
+                return r[0], r[1] + ' (program %r)' % (lines,)
+            live = sorted(c for c in expected if c.split('(')[0] in preserved and expected[c])
+            for kind, pick, text in spec['edits']:
+                if not live:
+                    break
+                cell = live[pick % len(live)]
+                old = expected[cell]
+                new = text.encode('ascii')
+                if kind == 'mid':
+                    stmt = 'MID$(%s,1)="%s"' % (cell, text)
+                    val = (new[:len(old)] + old[len(new):])[:len(old)]
+                else:
+                    stmt = '%s %s="%s"' % (kind.upper(), cell, text)
+                    val = new[:len(old)].ljust(len(old)) if kind == 'lset' else new[:len(old)].rjust(len(old))
+                try:
+                    out = s.execute(stmt.encode('ascii'))
+                except Exception as e:
+                    return 'chain-exception', '%s raised %s: %s' % (stmt, type(e).__name__, e)
+                if out.strip():
+                    return 'chain-output', '%s printed %r' % (stmt, out)
+                expected[cell] = val
+                r = inspect(expected, 'after CHAIN and %s' % stmt)
+                if r:
+                    return r[0], r[1] + ' (program %r)' % (lines,)
+            return None
+        finally:
+            s.close()
+    finally:
+        shutil.rmtree(workdir, ignore_errors=True)
+
+
+def chain_probe(ctx, n):
+    for k in range(n):
+        spec = gen_chain_case(ctx.rng)
+        ctx.case(('chain', k))
+        ctx.count('chain:' + spec['mode'])
+        for g in spec['groups']:
+            if len(g['cells']) > 1:
+                ctx.count('chain-shared:' + g['kind'])
+        r = run_chain_case(spec)
+        if r:
+            ctx.fail(r[0], {'chain': spec}, r[1])
+
+
 def run(ctx):
     translated.check_recsize(ctx)
     rng = ctx.rng
@@ -906,10 +1078,14 @@ def run(ctx):
             ctx.notes['D6_old_model_peek'] = m[0]
     finally:
         impl.close()
+    chain_probe(ctx, 12 if ctx.quick else 150)
 
 
 def replay(ctx, payload):
     case = payload.get('case', {})
+    if 'chain' in case:
+        r = run_chain_case(case['chain'])
+        return r[1] if r else None
     if 'ops' not in case:
         return None
     sub = Ctx2(ctx)
